@@ -10,7 +10,9 @@ import (
 
 func z(v int64) string { return coqfmt.Z(v) }
 
-func key(p int32) string { return fmt.Sprintf("(0, %s)", z(int64(p))) }
+func key(topic string, p int32) string {
+	return fmt.Sprintf("(%d, %s)", TopicIndex(topic), z(int64(p)))
+}
 
 func zlist(v []int64) string { return coqfmt.ZList(v) }
 
@@ -21,7 +23,7 @@ func CoqCase(res *Result) string {
 	for _, r := range res.Requests {
 		var bs, vs, ans, pfs []string
 		for _, b := range r.Batches {
-			bs = append(bs, fmt.Sprintf("mkBatch %s %s %s %s", key(b.Partition), z(int64(b.Epoch)), z(int64(b.First)), zlist(b.IDs)))
+			bs = append(bs, fmt.Sprintf("mkBatch %s %s %s %s", key(b.Topic, b.Partition), z(int64(b.Epoch)), z(int64(b.First)), zlist(b.IDs)))
 			switch b.Verdict {
 			case 0, 1:
 				vs = append(vs, fmt.Sprintf("(%d, %s)", b.Verdict, z(b.Base)))
@@ -31,7 +33,7 @@ func CoqCase(res *Result) string {
 				vs = append(vs, "((-1), (-1))")
 			}
 			if b.Answered {
-				ans = append(ans, fmt.Sprintf("(%s, (%s, %s))", key(b.Partition), z(int64(b.Code)), z(b.AnsBase)))
+				ans = append(ans, fmt.Sprintf("(%s, (%s, %s))", key(b.Topic, b.Partition), z(int64(b.Code)), z(b.AnsBase)))
 			}
 			switch b.Fault {
 			case "err-before":
@@ -66,12 +68,14 @@ func CoqCase(res *Result) string {
 	var logs []string
 	for _, k := range lkeys {
 		var p int32
-		fmt.Sscanf(strings.TrimPrefix(k, Topic+"/"), "%d", &p)
+		i := strings.LastIndex(k, "/")
+		fmt.Sscanf(k[i+1:], "%d", &p)
+		tname := k[:i]
 		var es []string
 		for _, a := range res.Logs[k] {
 			es = append(es, fmt.Sprintf("(%s, %s, %s)", z(a.ID), z(int64(a.Epoch)), z(int64(a.Seq))))
 		}
-		logs = append(logs, fmt.Sprintf("(%s, %s)", key(p), coqfmt.List(es)))
+		logs = append(logs, fmt.Sprintf("(%s, %s)", key(tname, p), coqfmt.List(es)))
 	}
 	// (2) transaction manager: only for complete runs
 	var ops []string
@@ -80,6 +84,7 @@ func CoqCase(res *Result) string {
 		bumps := 0
 		maxEp := 0
 		type st struct {
+			t      string
 			p      int32
 			sq, ep int64
 		}
@@ -109,7 +114,7 @@ func CoqCase(res *Result) string {
 				if !e.Msg.HasSeq {
 					ep, sq = -7, -7 // an unstamped first-pass message on the main path never matches the model
 				}
-				stamps = append(stamps, st{e.Msg.Partition, sq, ep})
+				stamps = append(stamps, st{e.Msg.Topic, e.Msg.Partition, sq, ep})
 				if int(ep) > maxEp {
 					maxEp = int(ep)
 				}
@@ -125,7 +130,7 @@ func CoqCase(res *Result) string {
 			}
 			for _, s := range stamps {
 				if int(s.ep) == ep {
-					ops = append(ops, fmt.Sprintf("TStamp %s %s %s", key(s.p), z(s.sq), z(s.ep)))
+					ops = append(ops, fmt.Sprintf("TStamp %s %s %s", key(s.t, s.p), z(s.sq), z(s.ep)))
 				}
 			}
 			if ep >= 0 && ep < bumps {
@@ -184,7 +189,7 @@ func CoqCase(res *Result) string {
 					}
 				}
 			}
-			rbs = append(rbs, fmt.Sprintf("mkRbcase %s %s %s %s %s %s %s %s", coqfmt.Nat(res.Scenario.RetryMax), key(start.Partition),
+			rbs = append(rbs, fmt.Sprintf("mkRbcase %s %s %s %s %s %s %s %s", coqfmt.Nat(res.Scenario.RetryMax), key(start.Topic, start.Partition),
 				coqfmt.List(msgs), z(int64(start.Err)), z(lo), z(hi), sent, zlist(failed)))
 		}
 	}
